@@ -162,6 +162,31 @@ theorem rbDamp_length (e : ColEnv α) (br mr : Option (List Nat)) (arb out : Lis
   · simp only [hu, Bool.not_false, if_true, Except.ok.injEq] at h
     subst h; rfl
 
+/-- a diagonal row: only the own column contributes to the full-size row sum -/
+theorem sum_range_diag (n r : Nat) (hr : r < n) (f : Nat → α) (hf : ∀ c, c ≠ r → f c = 0) :
+    ((List.range n).map f).sum = f r := by
+  induction n with
+  | zero => omega
+  | succ n ih =>
+    rw [List.range_succ, List.map_append, List.sum_append]
+    by_cases h : r < n
+    · rw [ih h]; simp [hf n (by omega)]
+    · have hrn : r = n := by omega
+      have : ((List.range n).map f).sum = 0 := by
+        apply List.sum_eq_zero
+        intro t ht
+        obtain ⟨c, hc, rfl⟩ := List.mem_map.1 ht
+        exact hf c (by have := List.mem_range.1 hc; omega)
+      rw [this, hrn]; simp
+
+theorem optionRow_d (inc : Incrb) (dO : Bool) (rb rf : List Nat) (c : Nat) (x : Dva α) :
+    (optionRow inc dO rb rf c x).d = if c ∈ rb then (if inc.d = true then x.d else 0) else x.d := by
+  unfold optionRow
+  by_cases h : c ∈ rb
+  · simp [h, applyIncrb]
+  · simp only [List.contains_eq_mem, h, decide_false, Bool.false_eq_true, if_false]
+    split <;> rfl
+
 theorem scaleDva_one (x : Dva α) : scaleDva 1 x = x := by
   cases x; simp [scaleDva]
 
